@@ -317,7 +317,7 @@ func Run[C any](t *testing.T, s Spec[C]) {
 			getStats(s.Name).Inconclusive++
 			mu.Unlock()
 			Note(s.Name, "%s", oneLine(err.Error()))
-			err = nil
+			return
 		}
 		cl := Class{}
 		if s.Class != nil {
